@@ -1433,6 +1433,14 @@ def _filters_of(src):
             out.append(t.a[1])
             t = t.a[0]
             continue
+        if t.op == "extend" and isinstance(t.a[0], T) and t.a[0].op == "seq" and not t.a[0].a and isinstance(t.a[1], T):
+            t = t.a[1]            # an empty list extended by an iterator: its elements are the iterator's
+            continue
+        if t.op == "map" and isinstance(t.a[1], T) and t.a[1].op == "lam":
+            x = tm.fresh("idm")
+            if tm.apply_lam(t.a[1], [x]) is x:      # identity (e.g. a clone of each element)
+                t = t.a[0]
+                continue
         break
     return out
 
